@@ -81,9 +81,11 @@ Fixpoint from_items_loop (l : list value) (acc : list (bytes * value)) : outcome
     end
   | _ => Err EInvalidType
   end.
+(* every element must be an array; this is checked for the whole argument first *)
+Definition is_arr (v : value) : bool := match v with VArr _ => true | _ => false end.
 Definition from_items (v : value) : outcome value :=
   match v with
-  | VArr a => do m <- from_items_loop a []; Ok (VObj m)
+  | VArr a => if forallb is_arr a then do m <- from_items_loop a []; Ok (VObj m) else Err EInvalidType
   | _ => Err EInvalidType
   end.
 
